@@ -872,3 +872,80 @@ Proof.
   - apply Nat.leb_le. exact H12.
   - apply Nat.leb_le. exact H13.
 Qed.
+
+(* ---- one step is the ordered composition of its gates --------------------------------------------------- *)
+Theorem tebd_step_app contr : forall gs1 gs2 s,
+  tebd_step contr s (gs1 ++ gs2) = match tebd_step contr s gs1 with Some s' => tebd_step contr s' gs2 | None => None end.
+Proof.
+  induction gs1 as [|g t IH]; intros gs2 s; cbn; [reflexivity|].
+  destruct (apply_gate contr s g) as [s'|]; [apply IH|reflexivity].
+Qed.
+
+Fixpoint tebd_steps (contr : id) (n : nat) (s : store) (gs : list tgate) : option store :=
+  match n with
+  | O => Some s
+  | S n' => match tebd_step contr s gs with Some s' => tebd_steps contr n' s' gs | None => None end
+  end.
+
+(* several time steps = the gate list repeated *)
+Theorem tebd_steps_repeat contr gs : forall n s, tebd_step contr s (repeat_list n gs) = tebd_steps contr n s gs.
+Proof.
+  induction n as [|n IH]; intros s; cbn; [reflexivity|]. rewrite tebd_step_app.
+  destruct (tebd_step contr s gs) as [s'|]; [apply IH|reflexivity].
+Qed.
+
+(* ---- absorb_into_open_legs on the diagram ----------------------------------------------------------------- *)
+Lemma fresh_wires_spec : forall ds s, 
+  let r := fresh_wires s ds in
+  snd r = seq (next_wire s) (length ds) /\ tensors (fst r) = tensors s /\ next_atom (fst r) = next_atom s /\ atab (fst r) = atab s.
+Proof.
+  induction ds as [|d t IH]; intros s; cbn; [auto|].
+  specialize (IH {| nodes := nodes s; tensors := tensors s; root := root s; dims := dims s ++ [(next_wire s, d)];
+                    next_wire := S (next_wire s); next_atom := next_atom s; defs := defs s; atab := atab s |}).
+  destruct (fresh_wires _ t) as [s2 ws]. cbn in *. destruct IH as (-> & -> & -> & ->). auto.
+Qed.
+
+(* the gate becomes one fresh atom whose input axes sit on the node's old open wires, in order, and
+   whose output axes are fresh wires that take the places of the open legs; virtual legs, the
+   node record of every node other than the accessed one, and all other tensors are untouched *)
+Theorem absorb_open_spec s n gshape s' : absorb_open s n gshape = Some s' ->
+  exists s1 nd t,
+    access s n = Some (s1, nd, t) /\
+    length gshape = 2 * nopen nd /\ firstn (nopen nd) gshape = skipn (nopen nd) gshape /\
+    map (wdim s) (skipn (nvirt nd) (axes t)) = skipn (nopen nd) gshape /\
+    let oldw := skipn (nvirt nd) (axes t) in
+    let neww := seq (next_wire s1) (nopen nd) in
+    nodes s' = nodes s1 /\ root s' = root s1 /\
+    aget n (tensors s') = Some {| axes := firstn (nvirt nd) (axes t) ++ neww; atoms := atoms t ++ [next_atom s1]; bnd := oldw ++ bnd t |} /\
+    (forall k, k <> n -> aget k (tensors s') = aget k (tensors s1)) /\
+    atab s' = atab s1 ++ [(next_atom s1, neww ++ oldw)].
+Proof.
+  unfold absorb_open. destruct (access s n) as [[[s1 nd] t]|] eqn:Hacc; [|discriminate].
+  destruct (Nat.eqb_spec (length gshape) (2 * nopen nd)) as [Hlen|]; [|discriminate]. cbn [negb].
+  destruct (list_eqb (firstn (nopen nd) gshape) (skipn (nopen nd) gshape)) eqn:Hsq; [|discriminate]. cbn [negb].
+  destruct (list_eqb (map (wdim s) (skipn (nvirt nd) (axes t))) (skipn (nopen nd) gshape)) eqn:Hdim; [|discriminate]. cbn [negb].
+  pose proof (fresh_wires_spec (firstn (nopen nd) gshape) s1) as Hfw. pose proof (fresh_wires_nodes (firstn (nopen nd) gshape) s1) as Hfn.
+  destruct (fresh_wires s1 (firstn (nopen nd) gshape)) as [s2 neww]. cbn in Hfw, Hfn. destruct Hfw as (-> & Ht & Ha & Hab). destruct Hfn as [Hn Hr].
+  unfold fresh_atom. intros [= <-]. exists s1, nd, t. split; [reflexivity|].
+  assert (Hl : length (firstn (nopen nd) gshape) = nopen nd) by (rewrite firstn_length; lia).
+  assert (list_eqb_eq : forall x y, list_eqb x y = true -> x = y).
+  { unfold list_eqb. induction x as [|p x IH]; intros [|q y] H; cbn in H; try discriminate; [reflexivity|].
+    apply andb_true_iff in H. destruct H as [H1 H2]. apply andb_true_iff in H2. destruct H2 as [H2 H3].
+    cbn in H2. apply Nat.eqb_eq in H2. subst. f_equal. apply IH. apply andb_true_iff. split; [|exact H3].
+    cbn in H1. exact H1. }
+  apply list_eqb_eq in Hsq, Hdim. rewrite Hl. cbn.
+  repeat split; auto.
+  - rewrite Ht, Ha. apply aget_aset_same.
+  - intros k Hk. rewrite Ht. apply aget_aset_other. exact Hk.
+  - rewrite Hab, Ha. reflexivity.
+Qed.
+
+(* ---- the truncation bound (from the C10 model of truncate_singular_values) -------------------------------- *)
+From PTN Require Trunc.Select Trunc.SelectProofs.
+Theorem bond_bounded (p : Select.params) (s : list QArith_base.Q) (m : nat) :
+  s <> [] -> Select.descending s -> Select.bond_ok (Select.max_bond p) -> Select.max_bond p = Select.BFin m ->
+  1 <= length (fst (Select.select p s)) <= m /\ length (fst (Select.select p s)) <= length s.
+Proof.
+  intros Hs Hd Hb Hm. destruct (SelectProofs.select_spec p s Hs Hd Hb) as ((H1 & H2) & _ & _ & H3).
+  specialize (H3 m Hm). lia.
+Qed.
